@@ -341,7 +341,9 @@ func (k Keeper) ModuleServiceRequest(ctx sdk.Context, input string) (result, out
 	valueData := value.Data
 	valueTime := value.Timestamp
 
-	if time.Since(valueTime) > time.Minute*5 {
+	// the age of a value is measured on the chain's clock: the host clock differs between
+	// nodes and between executions of the same block
+	if ctx.BlockTime().Sub(valueTime) > time.Minute*5 {
 		result = `{"code":"402","message":"all values expired"}`
 		return
 	}
